@@ -568,6 +568,119 @@ async fn node_big_call(ctx: &Ctx, epmd: &net::EpmdTable, round: usize) {
     }
 }
 
+struct Quiet;
+impl edp_node::Process for Quiet {
+    async fn handle_message(&mut self, _msg: edp_node::Message) -> edp_node::Result<()> {
+        Ok(())
+    }
+}
+
+/// Histories of operations through a Node on behalf of processes that really live on it, with the same pairs used again
+/// and again (link twice, link - unlink - link, monitor twice, operations tried before the connection exists and repeated
+/// after): every operation reported successful is one frame of its kind at the peer, in order, and nothing else arrives.
+async fn node_histories(ctx: &Ctx, rng: &mut Rng, epmd: &net::EpmdTable, round: usize) {
+    ctx.beat(&format!("node-histories/{}", round));
+    let name = format!("nh{}", round);
+    let peer_node = format!("{}@127.0.0.1", name);
+    let mut node = edp_node::Node::new(format!("hist{}@127.0.0.1", round), "cookie");
+    if let Err(e) = node.start(0).await {
+        ctx.inconclusive(&format!("Node::start failed: {}", e));
+        return;
+    }
+    let (Ok(a), Ok(b)) = (node.spawn(Quiet).await, node.spawn(Quiet).await) else {
+        ctx.inconclusive("spawn failed");
+        return;
+    };
+    let locals = [a, b, ExternalPid::new(node.name().clone(), 900_000, 0, node.creation())];
+    let remotes = [ExternalPid::new(Atom::new(&peer_node), 5, 0, 1), ExternalPid::new(Atom::new(&peer_node), 6, 0, 1)];
+    // before there is a connection: every operation towards the peer fails (and must not be remembered as done)
+    let mut early = 0;
+    for l in &locals {
+        for r in &remotes {
+            if rng.bool() {
+                early += 1;
+                if node.link(l, r).await.is_ok() || node.monitor(l, r).await.is_ok() {
+                    ctx.viol("C07:operation-without-connection-accepted", "an operation towards a node there is no connection to was reported successful", json!({"round": round}));
+                }
+            }
+        }
+    }
+    let pl = net::listen_as(epmd, &name).await;
+    let peer_task = tokio::spawn(async move {
+        let mut tags: Vec<i128> = Vec::new();
+        let Ok(mut peer) = pl.accept("cookie", PEER_BASE_FLAGS, 85).await else { return tags };
+        if peer.handshake().await.is_err() {
+            return tags;
+        }
+        loop {
+            match tokio::time::timeout(Duration::from_millis(400), peer.read_frame4()).await {
+                Ok(Ok(f)) => {
+                    if f.is_empty() {
+                        continue;
+                    }
+                    let mut cache = ReceiverCache::default();
+                    match read_frame(&f, false, &mut cache) {
+                        Ok((Val::Tuple(c), _)) => tags.push(match c.first() { Some(Val::Int(i)) => i.to_i128().unwrap_or(-1), _ => -1 }),
+                        _ => tags.push(-2),
+                    }
+                }
+                _ => break,
+            }
+        }
+        tags
+    });
+    if let Err(e) = node.connect(peer_node.clone()).await {
+        ctx.inconclusive(&format!("Node::connect failed: {}", e));
+        peer_task.abort();
+        return;
+    }
+    let mut expected: Vec<i128> = Vec::new();
+    let mut trace: Vec<String> = Vec::new();
+    let mut refs: Vec<(usize, usize, erltf::types::ExternalReference)> = Vec::new();
+    let n = 10 + rng.below(30);
+    for _ in 0..n {
+        // few pairs, so that the same pair comes up again and again
+        let (li, ri) = (rng.below(locals.len()), rng.below(remotes.len()));
+        let (l, r) = (&locals[li], &remotes[ri]);
+        let (what, tag, ok) = match rng.below(6) {
+            0 | 1 => ("link", 1, node.link(l, r).await.is_ok()),
+            2 => ("unlink", 35, node.unlink(l, r).await.is_ok()),
+            3 => match node.monitor(l, r).await {
+                Ok(x) => {
+                    refs.push((li, ri, x));
+                    ("monitor", 19, true)
+                }
+                Err(_) => ("monitor", 19, false),
+            },
+            4 => {
+                if let Some(k) = (0..refs.len()).find(|k| refs[*k].0 == li && refs[*k].1 == ri) {
+                    let (_, _, x) = refs.remove(k);
+                    ("demonitor", 20, node.demonitor(l, r, &x).await.is_ok())
+                } else {
+                    ("link", 1, node.link(l, r).await.is_ok())
+                }
+            }
+            _ => ("send", 2, node.send(r, OwnedTerm::Integer(7)).await.is_ok()),
+        };
+        trace.push(format!("{}({},{}){}", what, li, ri, if ok { "" } else { " failed" }));
+        if ok {
+            expected.push(tag);
+        }
+    }
+    let got = tokio::time::timeout(Duration::from_secs(20), peer_task).await.ok().and_then(|r| r.ok()).unwrap_or_default();
+    ctx.eval(n as u64);
+    ctx.class(&format!("node-histories/{}ops/{}tried-before-connecting", (n / 10) * 10, early.min(3)));
+    if got != expected {
+        let at = got.iter().zip(expected.iter()).position(|(a, b)| a != b).unwrap_or(got.len().min(expected.len()));
+        let cause = if got.len() < expected.len() { "no-frame" } else if got.len() > expected.len() { "more-than-one-frame" } else { "wrong-tag" };
+        ctx.viol(
+            &format!("C07:{}:node-history", cause),
+            "the frames the peer received are not one frame per operation the node reported successful, in order",
+            json!({"round": round, "operations": trace, "control_tags_expected": expected, "control_tags_received": got, "first_difference_at": at, "operations_tried_before_connecting": early}),
+        );
+    }
+}
+
 /// Many tasks sending through one Node; the peer's byte stream must split into whole frames.
 async fn concurrent(ctx: &Ctx, rng: &mut Rng, epmd: &net::EpmdTable, run_id: usize, with_yields: bool) {
     ctx.beat(&format!("concurrent/{}", run_id));
@@ -746,7 +859,7 @@ async fn concurrent(ctx: &Ctx, rng: &mut Rng, epmd: &net::EpmdTable, run_id: usi
 }
 
 pub fn run(ctx: &Ctx) {
-    ctx.rule("(1) every operation (send, send_to_name, link, unlink, monitor, demonitor) x argument classes (plain and node-local pids, names of 0..255 chars incl. non-ASCII, payloads from the term generator, unlink ids over the 64-bit range, references of 1..3 words) x all four combinations of which side offers the distribution header (header mode only when both do) against a directly driven Connection, each frame read by an independent implementation; operations before the handshake and after a handshake that failed at its last steps (wrong ack digest, refusal status, short ack, close), with the peer recording any byte that still arrives; frames of 1..13 MiB written while the peer is not reading yet, followed by a small frame, in both modes; remote calls through a Node with a 9..16 MiB request and a 1..150 ms timeout to a peer that starts reading late, followed by ordinary operations (the peer's bytes must split into whole frames); (2) 2..64 tasks x 5..40 operations through one Node on a current-thread runtime with seeded yields at the partial-write hooks and on a multi-thread runtime; evaluations = operations judged; distinct = distinct (mode, operation, argument class) + concurrency configurations + observed frame interleavings (hash of the caller sequence at the peer)");
+    ctx.rule("(1) every operation (send, send_to_name, link, unlink, monitor, demonitor) x argument classes (plain and node-local pids, names of 0..255 chars incl. non-ASCII, payloads from the term generator, unlink ids over the 64-bit range, references of 1..3 words) x all four combinations of which side offers the distribution header (header mode only when both do) against a directly driven Connection, each frame read by an independent implementation; operations before the handshake and after a handshake that failed at its last steps (wrong ack digest, refusal status, short ack, close), with the peer recording any byte that still arrives; frames of 1..13 MiB written while the peer is not reading yet, followed by a small frame, in both modes; remote calls through a Node with a 9..16 MiB request and a 1..150 ms timeout to a peer that starts reading late, followed by ordinary operations (the peer's bytes must split into whole frames); histories of link / unlink / monitor / demonitor / send through a Node for processes living on it, the same pairs again and again, also tried before the connection exists (one frame per successful operation, in order); (2) 2..64 tasks x 5..40 operations through one Node on a current-thread runtime with seeded yields at the partial-write hooks and on a multi-thread runtime; evaluations = operations judged; distinct = distinct (mode, operation, argument class) + concurrency configurations + observed frame interleavings (hash of the caller sequence at the peer)");
     ctx.assume("unique ids travel in the payload, or in the `from` pid for payload-less operations");
     let mut rng = Rng::derive(ctx.seed, 7, 1);
     {
@@ -763,6 +876,9 @@ pub fn run(ctx: &Ctx) {
                 after_failed_handshake(ctx, &epmd, round).await;
                 if round == 0 || !ctx.quick() {
                     big_frames(ctx, &epmd, round).await;
+                }
+                for k in 0..ctx.pick(3usize, 12usize) {
+                    node_histories(ctx, &mut rng, &epmd, round * 20 + k).await;
                 }
                 node_big_call(ctx, &epmd, round * 3).await;
                 node_big_call(ctx, &epmd, round * 3 + 1).await;
